@@ -211,6 +211,31 @@ def _occ_large(args):
                                     'shape': [h, w], 'walls': [[int(isinstance(c, Wall)) for c in row] for row in cells]})
         if not det[pos.y, pos.x]:
             out['failures'].append({'what': 'own cell not visible', 'fn': 'raytracing', 'shape': [h, w]})
+        # larger views: non-interference and monotonicity of both deterministic functions on this layout
+        for fname in ('raytracing', 'partially_occluded'):
+            fn = getattr(vf, fname)
+            base = fn(g, pos)
+            for y in range(h):
+                for x in range(w):
+                    if (y, x) == (pos.y, pos.x):
+                        continue
+                    was_wall = isinstance(cells[y][x], Wall)
+                    if base[y, x] and not was_wall:
+                        continue           # a visible transparent cell: neither clause speaks about it
+                    cells[y][x] = Floor() if was_wall else Wall()
+                    other = fn(Grid(cells), pos)
+                    cells[y][x] = Wall() if was_wall else Floor()
+                    out['evaluations'] += 1
+                    if not base[y, x] and (other != base).any() and not any(
+                            f['what'].startswith('hidden cell') for f in out['failures']):
+                        out['failures'].append({'what': 'hidden cell content changed the view (larger view)', 'fn': fname,
+                                                'shape': [h, w], 'cell': [y, x],
+                                                'walls': [[int(isinstance(c, Wall)) for c in row] for row in cells]})
+                    if base[y, x] and was_wall and (base & ~other).any() and not any(
+                            f['what'].startswith('making a visible') for f in out['failures']):
+                        out['failures'].append({'what': 'making a visible opaque cell transparent hid a cell (larger view)',
+                                                'fn': fname, 'shape': [h, w], 'cell': [y, x],
+                                                'walls': [[int(isinstance(c, Wall)) for c in row] for row in cells]})
     return out
 
 
@@ -225,7 +250,8 @@ def occlusion(tier, seed):
         'what': 'occlusion is monotone, non-interfering and chain-connected (C06 d), partially_occluded and raytracing; '
                 'stochastic view support = deterministic view',
         'bound': f'all wall/floor patterns of views {shapes} x every opaque cell flipped; plus {len(large) * 20} random '
-                 'layouts of 7x7 / 5x9 / 9x5 / 7x4 views for the stochastic-vs-deterministic comparison',
+                 'layouts of 7x7 / 5x9 / 9x5 / 7x4 views for the stochastic-vs-deterministic comparison and, with every hidden '
+                 'or visible-opaque cell flipped, for non-interference and monotonicity of both deterministic functions',
         'evaluations': sum(r['evaluations'] for r in res),
         'distinct_nontrivial': sum(r['nontrivial'] for r in res),
         'failures': [f for r in res for f in r['failures']][:5],
